@@ -80,7 +80,7 @@ PROPS["C07"] = {
 }
 PROPS["C08"] = {
     "parts": [_BATCH, {"family": "batchprobe", "admits": "BatchStressCorr.spec_C08_probe", "model_obs": None, "timeout": 600}],
-    "level_text": "Theorems over ALL schedules: C08_upper - never more than `workers` exec calls (or tasks) in flight; C08_usable - in every reachable quiescent state (no step of the submitter or of a worker outside an exec call enabled) before the end, EVERY worker is inside an exec call or all n items have been handed out: c blocking executions do run simultaneously; C08_no_deadlock; workers = max 1 c. Correspondence: at every quiescent point of every gated run the set of exec calls in flight observed on the implementation equals the model's (both bounds exactly, no timing thresholds); c=0 runs must be strictly sequential in item order; scenarios in which the controller sits on a quiescent point with a full queue for 150 ms (thorough: 1.2 s) before releasing anything (a Submit that gives up blocking after a while shows as an extra call in flight). Second part: 2 and 3 batches of concurrency 1..4 running at the same time, c items each, every exec call waiting for all calls of all batches: each batch has c workers of its own (C08_usable per batch), so the rendezvous completes; workers shared between batches would not let it.",
+    "level_text": "Theorems over ALL schedules: C08_upper - never more than `workers` exec calls (or tasks) in flight; C08_notes_bounded - the same read off the log (the observer's note is a step of the system, so the gated model run is one of the schedules: C07_model_run_is_a_schedule); C08_usable - in every reachable quiescent state (no step of the submitter or of a worker outside an exec call enabled) before the end, EVERY worker is inside an exec call or all n items have been handed out: c blocking executions do run simultaneously; C08_no_deadlock; workers = max 1 c. Correspondence: at every quiescent point of every gated run the set of exec calls in flight observed on the implementation equals the model's (both bounds exactly, no timing thresholds); c=0 runs must be strictly sequential in item order; scenarios in which the controller sits on a quiescent point with a full queue for 150 ms (thorough: 1.2 s) before releasing anything (a Submit that gives up blocking after a while shows as an extra call in flight). Second part: 2 and 3 batches of concurrency 1..4 running at the same time, c items each, every exec call waiting for all calls of all batches: each batch has c workers of its own (C08_usable per batch), so the rendezvous completes; workers shared between batches would not let it.",
     "level_note": _TB, "explanation": "structural bound + enabledness analysis of quiescent states; in-flight sets compared at every quiescent point",
     "assumptions": ["queue capacity > 0 (the code uses 2*workers)"],
 }
@@ -135,7 +135,7 @@ PROPS["C19"] = {
 PROPS["C12"] = {
     "parts": [{"family": "pool", "admits": "PoolCorr.admits_pool", "model_obs": None, "timeout": 600},
               {"family": "poolstress", "admits": "PoolCorr.spec_C12_stress", "model_obs": None, "race": True, "timeout": 900}],
-    "level_text": "Theorems for every schedule of any number of submitting goroutines with any operation lists (Submit / Wait / Close, any number of rounds), any number of workers and queue capacity: C12_conservation (every task for which wg.Add ran is in exactly one place - waiting to be sent, queued, running, finished; the counter counts the unfinished ones), C12_exactly_once, C12_barrier (Wait can return only at counter 0, and then every task added so far by any submitter has finished), C12_blocks_not_drops (a full queue disables the send), C12_close (after Close every idle worker can leave). Correspondence: gated single-submitter operation lists on the real pool (sizes -1..16, task counts beyond the queue, repeated rounds, Wait on idle pool / with tasks in flight) whose log of quiescent running-sets, task ends and Wait returns must equal the model's; at every quiescent point the number of Submit calls that have returned is noted and must fit (returned - ended <= workers + queue: C12_outstanding_bounded, for every schedule); race-detector stress runs with 1..4 submitters judged by counters (exactly once, barrier with plain writes, running <= workers, no worker goroutine after Close); Wait called while a task is held in flight and a second goroutine submits and completes further tasks must not return before the held task is let go.",
+    "level_text": "Theorems for every schedule of any number of submitting goroutines with any operation lists (Submit / Wait / Close, any number of rounds), any number of workers and queue capacity: C12_conservation (every task for which wg.Add ran is in exactly one place - waiting to be sent, queued, running, finished; the counter counts the unfinished ones), C12_exactly_once, C12_barrier (Wait can return only at counter 0, and then every task added so far by any submitter has finished), C12_blocks_not_drops (a full queue disables the send), C12_close (after Close every idle worker can leave). Correspondence: gated single-submitter operation lists on the real pool (sizes -1..16, task counts beyond the queue, repeated rounds, Wait on idle pool / with tasks in flight) whose log of quiescent running-sets, task ends and Wait returns must equal the model's; at every quiescent point the number of Submit calls that have returned is noted and must fit (returned - ended <= workers + queue: C12_outstanding_bounded and C12_blocks_ok_every_run, for every schedule; C12_model_log_is_a_run: the gated model log is the log of one of those schedules); race-detector stress runs with 1..4 submitters judged by counters (exactly once, barrier with plain writes, running <= workers, no worker goroutine after Close); Wait called while a task is held in flight and a second goroutine submits and completes further tasks must not return before the held task is let go.",
     "level_note": _T + " The orderings inside Submit (Add before send) and inside the worker's select cannot be forced on the code; they are proved on the model and only sampled by the stress runs. The happens-before edge Done -> Wait is sync.WaitGroup's (assumed, exercised by the race detector). Goroutine termination after Close is observed, not proved, on the code side.",
     "explanation": "conservation invariant with Permutation for all schedules; gated operation lists; race-detector stress",
     "assumptions": ["task identities are pairwise distinct"],
